@@ -214,3 +214,12 @@ Proof.
   - rewrite <- (rev_length (open s)). apply close_loop_length.
   - intros i H. now destruct (find_last_equal_spec _ _ _ H).
 Qed.
+
+Theorem I1_reachable_new : forall pool cs, Forall (call_in_pool pool) cs ->
+  exists s', exec pool NewState cs = Ok s' /\ I1 s'.
+Proof. intros pool cs H. exact (I1_reachable pool cs NewState I1_new H). Qed.
+
+Theorem never_panics_new : forall pool cs, Forall (call_in_pool pool) cs ->
+  length (run pool NewState cs) = length cs /\
+  Forall (fun o => exists ob l, o = Some ob /\ o_open ob = Ok l) (run pool NewState cs).
+Proof. intros pool cs H. exact (never_panics pool cs NewState I1_new H). Qed.
